@@ -128,8 +128,8 @@ func TestVerifC18HandshakePreopened(t *testing.T) {
 					if !strings.HasPrefix(why, "failures") {
 						c = why
 					}
-					run.Violation(fmt.Sprintf("C18:handshake-message-evaluated-inside-lockout|msg=%s|cause=%s|outcome=%s", strings.SplitN(name, "#", 2)[0], c, outcome), map[string]any{
-						"ip": ip, "cause": cause, "locked_out_because": why, "ban": ban.String(), "reply": cl, "authenticated_after": authed,
+					run.Violation(fmt.Sprintf("C18:handshake-message-evaluated-inside-lockout|cause=%s|outcome=%s", c, outcome), map[string]any{
+						"ip": ip, "msg": name, "cause": cause, "locked_out_because": why, "ban": ban.String(), "reply": cl, "authenticated_after": authed,
 						"failure_count_before": before, "failure_count_after": after, "expected": "refused at the gate (IP banned / blacklisted), nothing evaluated", "events": log})
 				}
 				return cl
